@@ -1280,6 +1280,20 @@ func (a *Analysis) ruleGates() {
 									gateFn, defBlock = f, cc.Block()
 								}
 							}
+							if len(subj) == 0 {
+								// … and the caller hands them on to the function whose results it
+								// returns (`return checkWords(splitWords(m), lg)`)
+								if g, param := a.tailCallee(f, tv); g != nil {
+									for _, lc := range callsIn(g) {
+										if calleeName(lc) == "len" && lc.Common().Args[0] == ssa.Value(param) {
+											subj[lc.Value()] = true
+										}
+									}
+									if len(subj) > 0 {
+										gateFn, defBlock = g, g.Blocks[0]
+									}
+								}
+							}
 						}
 					}
 					if len(subj) > 0 {
